@@ -57,6 +57,10 @@ def release_oracle(ix: Index, notes: Any = None) -> list[Violation]:
             if seq > T and sub_conn.get(d.get("tag")) == c:
                 out.append(Violation("callback-after-close", kind, f"{c}: subscriber callback {kind} at turn {turn} after the connection closed"))
                 break
+    for seq, conn, timers, turn, t in ix.post_close_timers:
+        for tm in timers:
+            out.append(Violation("timer-armed-after-close", tm["cb"].rsplit(".", 1)[-1], f"{conn}: library timer {tm['cb']} (due in {tm['in']}s) still armed a few event-loop turns after the connection closed"))
+            break
     for seq, d in ix.unclosed_transports:
         out.append(Violation("transport-unclosed", "", f"transport {d['tr']} garbage-collected without close()"))
     return out
